@@ -238,7 +238,7 @@ func notJoined(rid uint32, kind string) *Outcome {
 			if !ok {
 				return fmt.Sprintf("a request outside a session was answered with %T", m)
 			}
-			if e.RequestId != rid && e.RequestId != 0 {
+			if e.RequestId != rid {
 				return "error answer with a foreign request id"
 			}
 			return ""
